@@ -58,6 +58,7 @@ def cases_for(c, parts):
         cases += gen.corpus()
         cases += gen.sample_pairs(c.rng, 1500) if quick else gen.exhaustive_pairs(4)
         cases += gen.exhaustive_unary(3 if quick else 4)
+        cases += gen.bufless_cases(1 if quick else 2)      # buffer-less (default-constructed / detached) operands, all char types
         for i in range(700 if quick else 6000):
             cases.append(("r%d" % i, gen.gen_case(c.rng, c.rng.choice([8, 20, 40, 80]))))
         # the same operations instantiated for char16_t, char32_t, wchar_t (everything except to_number / compare(const char*))
